@@ -349,8 +349,16 @@ func (ex *Exec) initIntrinsics() {
 		return nil
 	}
 	in["(*sync.Pool).Get"] = func(ex *Exec, st *State, args []Value, site ssa.CallInstruction) Value {
-		// always "empty": call New if set
+		// the pool may hand back any object put earlier (the environment decides) or be empty: then New
 		p := args[0].(Ptr)
+		key := "pool:" + ptrKey(p)
+		if lst, _ := st.ghost[key].([]Value); len(lst) > 0 {
+			if st.choose("pool_reuses_an_object", 2) == 0 {
+				v := lst[len(lst)-1]
+				st.ghost[key] = append([]Value(nil), lst[:len(lst)-1]...)
+				return v
+			}
+		}
 		pv := st.load(p).(StructV)
 		newf := pv[len(pv)-1].(FuncV)
 		if newf.IsNil() {
@@ -360,7 +368,12 @@ func (ex *Exec) initIntrinsics() {
 		st.frames = append(st.frames, nf)
 		return pushed{}
 	}
-	in["(*sync.Pool).Put"] = nop
+	in["(*sync.Pool).Put"] = func(ex *Exec, st *State, args []Value, site ssa.CallInstruction) Value {
+		key := "pool:" + ptrKey(args[0].(Ptr))
+		lst, _ := st.ghost[key].([]Value)
+		st.ghost[key] = append(append([]Value(nil), lst...), args[1])
+		return nil
+	}
 
 	// ---- sync/atomic (sequential semantics unless stubbed by the harness) ----
 	for _, ty := range []string{"Int32", "Int64", "Uint32", "Uint64", "Uintptr", "Pointer"} {
